@@ -1601,7 +1601,23 @@ func (ff *FuncFacts) killTerm(st *State, t *Term) *State {
 		})
 	case 'f':
 		fld := t.Obj
-		return st.filter(func(f *Fact) bool { return !f.ents().fields[fld] && !ff.callReads(f, fld) })
+		st = st.filter(func(f *Fact) bool { return !f.ents().fields[fld] && !ff.callReads(f, fld) })
+		// a store to a field of a struct-valued variable also changes the
+		// variable's value as a whole (x == y, x == f())
+		if len(t.Args) == 1 && t.Args[0].K == 'v' && t.Args[0].Obj != nil {
+			if _, isStruct := t.Args[0].Obj.Type().Underlying().(*types.Struct); isStruct {
+				obj := t.Args[0].Obj
+				st = st.filter(func(f *Fact) bool {
+					for _, x := range f.terms() {
+						if wholeUse(x, obj) {
+							return false
+						}
+					}
+					return true
+				})
+			}
+		}
+		return st
 	case 'i':
 		// store to an element: kill what depends on the container's
 		// contents (index terms, calls taking it, len/each), but not facts
@@ -3072,4 +3088,24 @@ func (ff *FuncFacts) MustFlag(gen, kill func(n ast.Node) bool) func(n ast.Node) 
 		}
 		return step(b, in[b], i)
 	}
+}
+
+// wholeUse reports whether the variable obj occurs in t as a whole value,
+// i.e. other than as the base of a field selection.
+func wholeUse(t *Term, obj types.Object) bool {
+	if t == nil {
+		return false
+	}
+	if t.K == 'v' {
+		return t.Obj == obj
+	}
+	for i, a := range t.Args {
+		if t.K == 'f' && i == 0 && a.K == 'v' && a.Obj == obj {
+			continue
+		}
+		if wholeUse(a, obj) {
+			return true
+		}
+	}
+	return false
 }
